@@ -27,6 +27,7 @@ import (
 	aggsync "github.com/agglayer/aggkit/sync"
 	"github.com/ethereum/go-ethereum/common"
 
+	"verifharness/iofault"
 	"verifharness/sqlfault"
 	"verifharness/tr"
 )
@@ -500,7 +501,11 @@ func (r *runner) runOne(idx int, b Behaviour, mk func(dir string, rng *rand.Rand
 		b.Ops = b.Ops[b.Preload:]
 	}
 	r.w.Emit(tr.M{"ev": "snap", "s": kd.snapshot()})
+	cut := false // the behaviour ends here: an operation meant to fail went through (the disk fault was never reached)
 	for _, op := range b.Ops {
+		if cut {
+			break
+		}
 		// a query in flight in another goroutine: the operation cannot reuse the pool's first connection
 		var held *sql.Rows
 		if op.Busy && (op.Op == "process" || op.Op == "reorg") && op.Fault.Kind != "kill" {
@@ -585,6 +590,17 @@ func (r *runner) runOne(idx int, b Behaviour, mk func(dir string, rng *rand.Rand
 					real = kd.realStmt(op, op.Fault.At, r.rng)
 					armAuth(kd.dbPath(), real, op.Fault.R)
 				}
+			case "ioread", "iowrite":
+				// the disk fails under a running statement (SQLITE_IOERR out of a row fetch, an INSERT or the COMMIT): the R-th
+				// page read / write on the store file since the operation began
+				kind := iofault.Read
+				if op.Fault.Kind == "iowrite" {
+					kind = iofault.Write
+				}
+				if err := iofault.Arm(kd.dbPath(), kind, max(op.Fault.R, 1)); err != nil {
+					cancel()
+					return err
+				}
 			case "ctx":
 				real = kd.realStmt(op, op.Fault.At, r.rng)
 				if err := inj.arm(real, true); err != nil {
@@ -603,6 +619,10 @@ func (r *runner) runOne(idx int, b Behaviour, mk func(dir string, rng *rand.Rand
 			}
 			t0 := time.Now()
 			perr := kd.process(ctx, op)
+			ioFired, ioSeen := false, 0
+			if op.Fault.Kind == "ioread" || op.Fault.Kind == "iowrite" {
+				ioFired, ioSeen = iofault.Disarm()
+			}
 			cancel()
 			release()
 			if err := inj.disarm(); err != nil {
@@ -619,6 +639,10 @@ func (r *runner) runOne(idx int, b Behaviour, mk func(dir string, rng *rand.Rand
 				"ms": time.Since(t0).Milliseconds(), "busy": op.Busy}
 			if fired, what := disarmAuth(); op.Fault.Kind == "read" || op.Fault.Kind == "readinit" {
 				ev["fired"], ev["what"] = fired, what
+			}
+			if op.Fault.Kind == "ioread" || op.Fault.Kind == "iowrite" {
+				ev["fired"], ev["what"] = ioFired, fmt.Sprintf("%s call %d of %d", op.Fault.Kind, max(op.Fault.R, 1), ioSeen)
+				cut = !ioFired && res == "ok"
 			}
 			if perr != nil {
 				ev["err"] = fmt.Sprintf("%.160s", perr.Error())
@@ -645,7 +669,20 @@ func (r *runner) runOne(idx int, b Behaviour, mk func(dir string, rng *rand.Rand
 					}
 				}})
 			}
+			if op.Fault.Kind == "iowrite" || op.Fault.Kind == "ioread" {
+				kind := iofault.Read
+				if op.Fault.Kind == "iowrite" {
+					kind = iofault.Write
+				}
+				if err := iofault.Arm(kd.dbPath(), kind, max(op.Fault.R, 1)); err != nil {
+					return err
+				}
+			}
 			perr := kd.reorg(context.Background(), op.From)
+			if op.Fault.Kind == "iowrite" || op.Fault.Kind == "ioread" {
+				fired, _ := iofault.Disarm()
+				cut = !fired && perr == nil
+			}
 			disarmAuth()
 			release()
 			if err := inj.disarm(); err != nil {
